@@ -15,6 +15,8 @@ a directory is names joined by `/` (`~` = the download directory itself).
                            | `oserror <dir> <name>` | `busy`
   `finish <id>`          the task ends, complete → `done`
   `cut <id>`             the task ends, connection lost → `done`
+  `remove <id>`          the user moves the file of the completed download away → `removed` | `noop`
+  `requeue <id>`         `queue()` on the ended download, not started yet → `done`
   `dump`                 → `held <id>:<dir>:<name>:<r|c|b>,… fs <entry>,…` (both sorted)
 -/
 open AioslskVerif.Naming
@@ -66,6 +68,7 @@ def encStatus : Status → String
   | .running => "r"
   | .complete => "c"
   | .broken => "b"
+  | .gone => "g"
 
 def sorted (l : List String) : List String := (l.toArray.qsort (· < ·)).toList
 
@@ -92,7 +95,7 @@ def handle (s : Sys) (line : String) : Sys × String :=
         | .refused e => encErr e
         | .oserror d n => s!"oserror {encPath d} {encName n}"
         | .busy => "busy"
-        | .done => "done")
+        | _ => "done")
     | _, _, _, _ => (s, "bad-op")
   | ["finish", id] =>
     match id.toNat? with
@@ -101,6 +104,16 @@ def handle (s : Sys) (line : String) : Sys × String :=
   | ["cut", id] =>
     match id.toNat? with
     | some id => ((step [] s (.cut id)).1, "done")
+    | none => (s, "bad-op")
+  | ["remove", id] =>
+    match id.toNat? with
+    | some id =>
+      let res := step [] s (.remove id)
+      (res.1, match res.2 with | .removed => "removed" | _ => "noop")
+    | none => (s, "bad-op")
+  | ["requeue", id] =>
+    match id.toNat? with
+    | some id => ((step [] s (.requeue id)).1, "done")
     | none => (s, "bad-op")
   | ["dump"] =>
     let held := sorted (s.dls.map (fun a => s!"{a.id}:{encPath a.dir}:{encName a.name}:{encStatus a.status}"))
